@@ -2,7 +2,7 @@
 only under both acceptance tests and the consumed buffers are never reused on the fallback path."""
 from __future__ import annotations
 import ast
-from typing import Dict, List, Set
+from typing import Dict, List, Optional, Set
 from ..model import Program, AnalysisError, own_nodes, norm, names_in
 from ..cfg import cfg_of
 from ..guards import Env, walk, collect_atoms
@@ -18,6 +18,7 @@ ENTRY = [('fggs.semirings', 'Semiring.solve'), ('fggs.semirings', 'Semiring.mm')
 def run(prog: Program, rep: Report, tier: str) -> None:
     rep.rule('C09-D1', 'arguments unmodified (effect analysis): Semiring.solve/mm/mv, PatternedTensor.solve/mv/mm, multi_solve and multi_mv have no write effect on their parameters or anything reachable from them; every semiring operation except add_ is free of write effects, add_ writes only its first operand; every thunk passed to solve_thunks returns fresh storage')
     rep.rule('C09-D2', 'LU fallback discipline in RealSemiring.solve_thunks: the LU result is returned only if the input had no infinite entry and the result is non-negative; once the buffers have been transformed in place they are consumed: every other path obtains new buffers from the thunks (calls the generic solver with the thunks, not with the buffers)')
+    rep.rule('C09-D4', 'transposes of matrices: every `.T` in multi_solve / multi_mv is applied to a value with exactly two axes (a block reshaped over two flat shapes, an element of a MultiTensor built over two flat shape tables, or the solve/transpose/clone of such a value) -- decided by a rank inference with reaching definitions')
     rep.rule('C09-D3', 'generic elimination: solve_thunks obtains both buffers from the thunks, eliminates every pivot k in range(a.shape[0]) and multiplies the pivot column by star(a[k,k]) before using it')
     rep.not_decided += ['least-solution semantics of the elimination for every block structure', 'correctness of the elimination order heuristic', 'divergence handling beyond star at the radius (C08-L6)']
     rep.trusted += ['E1 tables (view list, naming convention for in-place operations)', 'torch.linalg.solve does not modify its arguments']
@@ -68,6 +69,7 @@ def run(prog: Program, rep: Report, tier: str) -> None:
     rep.floor('C09-D1 thunks', n_thunks, 4)
     lu_fallback(rep, prog)
     generic_elimination(rep, prog)
+    transposes_of_matrices(rep, prog)
 
 
 def lu_fallback(rep: Report, prog: Program) -> None:
@@ -144,3 +146,114 @@ def generic_elimination(rep: Report, prog: Program) -> None:
         oks = isinstance(first, ast.Assign) and any(isinstance(x, ast.Call) and callee_last(x) == 'star' and norm(x.args[0]).endswith(f"[{k}, {k}]") for x in ast.walk(first.value)) \
             and norm(first.targets[0]).endswith(f"[:, {k}]")
         rep.ob(rule, f.fq(), f"pivot column scaled by star(a[{k},{k}]) first", f.loc(l), bool(oks), '' if oks else 'the first statement of the pivot loop is not a[:,k] = mul(a[:,k], star(a[k,k]))')
+
+
+# ------------------------------------------------------------------------------------------ D4 rank of transposed values
+def transposes_of_matrices(rep: Report, prog: Program) -> None:
+    """`.T` of a PatternedTensor reverses *all* axes; it is the matrix transpose only of a value with two axes.  In multi.py
+    blocks are flattened (`reshape(flat[x] + flat[y])`, elements of a MultiTensor built over flat shapes); a small rank inference
+    over the function decides that every transposed value is such a matrix."""
+    rule = 'C09-D4 transposes-of-matrices'
+    n_sites = 0
+    for fn in ('multi_solve', 'multi_mv'):
+        f = prog.func('fggs.multi', fn)
+        cfg = cfg_of(f)
+        dom = cfg.dominators()
+        assigns: Dict[str, List[int]] = {}
+        for n, nd in cfg.nodes.items():
+            if nd.kind == 'stmt' and isinstance(nd.stmt, (ast.Assign, ast.AnnAssign)):
+                for t in (nd.stmt.targets if isinstance(nd.stmt, ast.Assign) else [nd.stmt.target]):
+                    if isinstance(t, ast.Name):
+                        assigns.setdefault(t.id, []).append(n)
+        loops = {n: nd.stmt for n, nd in cfg.nodes.items() if nd.kind == 'for'}
+
+        def flat_dict(name: str) -> bool:
+            ds = assigns.get(name, [])
+            if len(ds) != 1:
+                return False
+            v = cfg.nodes[ds[0]].stmt.value
+            if not isinstance(v, ast.DictComp):
+                return False
+            val = v.value
+            if isinstance(val, ast.Call) and callee_last(val) == 'Size' and val.args:
+                val = val.args[0]
+            return isinstance(val, ast.Tuple) and len(val.elts) == 1
+
+        def reaching(name: str, at: int) -> Optional[ast.AST]:
+            """The defining expression of `name` at node `at`: the closest assignment that dominates it, provided no other
+            assignment lies between (None: a parameter or ambiguous)."""
+            ds = [d for d in assigns.get(name, []) if d in dom.get(at, set()) and d != at]
+            if not ds:
+                return None
+            best = max(ds, key=lambda d: len(dom.get(d, set())))
+            others = [d for d in assigns.get(name, []) if d != best and d not in dom.get(best, set())]
+            if any(cfg.reaches(best, o) and cfg.reaches(o, at) for o in others):
+                return None
+            return cfg.nodes[best].stmt.value
+
+        def multi_rank(e: ast.AST, at: int, depth: int = 0) -> Optional[int]:
+            """Rank of the elements of the MultiTensor denoted by e."""
+            if depth > 4:
+                return None
+            if isinstance(e, ast.Name):
+                v = reaching(e.id, at)
+                return multi_rank(v, at, depth + 1) if v is not None else None
+            if isinstance(e, ast.Call) and callee_last(e) == 'MultiTensor' and e.args and isinstance(e.args[0], ast.Tuple):
+                comps = e.args[0].elts
+                if all(isinstance(c, ast.Name) and flat_dict(c.id) for c in comps):
+                    return len(comps)
+            return None
+
+        def rank(e: ast.AST, at: int, depth: int = 0) -> Optional[int]:
+            if depth > 6:
+                return None
+            if isinstance(e, ast.Attribute) and e.attr == 'T':
+                return rank(e.value, at, depth + 1)
+            if isinstance(e, ast.Subscript):
+                return multi_rank(e.value, at)
+            if isinstance(e, ast.Name):
+                v = reaching(e.id, at)
+                if v is not None:
+                    return rank(v, at, depth + 1)
+                # loop target of `for k, t in M.items()` / `for t in M.values()`
+                for ln, lp in loops.items():
+                    if ln in dom.get(at, set()) and e.id in names_in(lp.target) and isinstance(lp.iter, ast.Call) and callee_last(lp.iter) in ('items', 'values'):
+                        return multi_rank(lp.iter.func.value, ln)
+                return None
+            if isinstance(e, ast.Call) and isinstance(e.func, ast.Attribute):
+                m = e.func.attr
+                if m in ('reshape', 'view') and len(e.args) == 1:
+                    parts: List[ast.AST] = []
+                    def split(x):
+                        if isinstance(x, ast.BinOp) and isinstance(x.op, ast.Add):
+                            split(x.left); split(x.right)
+                        else:
+                            parts.append(x)
+                    split(e.args[0])
+                    if all(isinstance(p_, ast.Subscript) and isinstance(p_.value, ast.Name) and flat_dict(p_.value.id) for p_ in parts):
+                        return len(parts)
+                    return None
+                if m == 'flatten' and not e.args:
+                    return 1
+                if m in ('clone', 'copy_', 'detach', 'to', 'freshen'):
+                    return rank(e.func.value, at, depth + 1)
+                if m == 'solve' and e.args:
+                    return rank(e.args[0], at, depth + 1)
+                if m == 'mm':
+                    return 2
+                if m == 'mv':
+                    return 1
+            return None
+        for n, nd in cfg.nodes.items():
+            st = nd.stmt if nd.kind in ('stmt', 'return') else nd.expr if nd.kind == 'test' else None
+            if st is None:
+                continue
+            for x in ast.walk(st):
+                if isinstance(x, ast.Attribute) and x.attr == 'T' and isinstance(x.ctx, ast.Load):
+                    n_sites += 1
+                    r = rank(x.value, n)
+                    rep.ob(rule, f.fq(), f"{norm(x)[:70]}: the transposed value has two axes", f.loc(x), r == 2,
+                           'a block flattened to a matrix' if r == 2 else
+                           (f"the value has {r} axis" if r is not None else 'the value is not known to be flattened to two axes') +
+                           ': `.T` reverses all axes, so for a block index of more than one dimension this is not the transpose of the flattened matrix')
+    rep.floor('C09-D4', n_sites, 4)
